@@ -3,6 +3,23 @@
 //! selector compare equal: whitespace around combinators, order of simple selectors inside a compound
 //! (type first, pseudo-elements last), recursively inside selector pseudo-class arguments.
 
+/// length (in chars) of the escape starting at cs[i] == '\\': hex escapes take up to 6 digits and one following space
+fn escape_len(cs: &[char], i: usize) -> usize {
+    let mut n = 1;
+    let mut h = 0;
+    while h < 6 && cs.get(i + n).is_some_and(|c| c.is_ascii_hexdigit()) {
+        n += 1;
+        h += 1;
+    }
+    if h == 0 {
+        return if i + 1 < cs.len() { 2 } else { 1 };
+    }
+    if cs.get(i + n).is_some_and(|c| *c == ' ' || *c == '\t' || *c == '\n') {
+        n += 1;
+    }
+    n
+}
+
 fn split_top(s: &str, sep: char) -> Vec<String> {
     let mut out = vec![];
     let mut depth = 0i32;
@@ -60,11 +77,9 @@ pub fn simples(compound: &str) -> Vec<String> {
         let c = cs[i];
         match c {
             '\\' => {
-                cur.push(c);
-                if i + 1 < cs.len() {
-                    cur.push(cs[i + 1]);
-                    i += 1;
-                }
+                let n = escape_len(&cs, i);
+                cur.extend(&cs[i..i + n]);
+                i += n - 1;
             }
             '.' | '#' | '%' => {
                 flush(&mut cur, &mut out);
@@ -136,7 +151,7 @@ pub fn simples(compound: &str) -> Vec<String> {
                     if SELECTOR_PSEUDOS.contains(&name.as_str()) {
                         // the order of the members of a selector-list argument carries no meaning
                         let mut members: Vec<String> = split_top(&arg, ',').iter().filter(|s| !s.is_empty()).map(|c| canon_complex(c)).collect();
-                        members.sort();
+                        members.sort_by_key(|m| format!("{:?}", crate::cssread::tokenize(m)).replace("Str(", "Ident("));
                         cur.push_str(&format!("({})", members.join(", ")));
                     } else {
                         cur.push_str(&format!("({})", arg.split_whitespace().collect::<Vec<_>>().join(" ")));
@@ -178,9 +193,11 @@ pub fn canon_compound(c: &str) -> String {
     if v.len() > 1 && v[0] == "*" {
         v.remove(0);
     }
-    v.sort_by(|a, b| rank(a).cmp(&rank(b)).then_with(|| a.cmp(b)));
+    // order by the decoded text, so that two spellings of one name sort alike
+    let key = |x: &String| format!("{:?}", crate::cssread::tokenize(x)).replace("Str(", "Ident(");
+    v.sort_by(|a, b| rank(a).cmp(&rank(b)).then_with(|| key(a).cmp(&key(b))));
     // `.k.k` and `.k` are the same compound
-    v.dedup();
+    v.dedup_by_key(|x| key(x));
     v.concat()
 }
 
@@ -213,11 +230,9 @@ pub fn complex_parts(cx: &str) -> Vec<String> {
         }
         match c {
             '\\' => {
-                cur.push(c);
-                if i + 1 < cs.len() {
-                    cur.push(cs[i + 1]);
-                    i += 1;
-                }
+                let n = escape_len(&cs, i);
+                cur.extend(&cs[i..i + n]);
+                i += n - 1;
             }
             '"' | '\'' => {
                 quote = Some(c);
